@@ -401,6 +401,8 @@ var resumeTrees = map[string][]xfer.FileSpec{
 	"one4":  {{Rel: "big.bin", Size: 4*64 - 5}},
 	"two":   {{Rel: "a.bin", Size: 3 * 64}, {Rel: "d/b.bin", Size: 2*64 + 1}, {Rel: "d/zero", Size: 0}},
 	"eight": {{Rel: "e.bin", Size: 8 * 64}},
+	// files that fit into one chunk (most files of a source tree) next to one that does not
+	"smalls": {{Rel: "s0.bin", Size: 40}, {Rel: "s1.bin", Size: 64}, {Rel: "t/s2.bin", Size: 50}, {Rel: "t/big.bin", Size: 3*64 + 1}},
 }
 
 // ResumeKill enumerates kill points of the receiver process, checks the disk
@@ -435,7 +437,7 @@ func ResumeKill(args []string) {
 	var jobs []job
 	points := []string{"recv.filebegin", "recv.chunk.header", "recv.chunk.written", "recv.chunk.marked", "recv.finalize",
 		"sidecar.flush.begin", "sidecar.flush.tmp", "sidecar.flush.renamed"}
-	for _, tree := range []string{"one4", "two", "eight"} {
+	for _, tree := range []string{"one4", "two", "eight", "smalls"} {
 		nchunks := 0
 		for _, f := range resumeTrees[tree] {
 			nchunks += int((f.Size + chunk - 1) / chunk)
@@ -559,7 +561,22 @@ func ResumeKill(args []string) {
 				continue
 			}
 			if !has {
-				continue // the file completed before the request was answered / no request (e.g. empty file)
+				// the sender never asked about this file (the run went through to the end, so every question it asked was
+				// answered): whatever the metadata marks as complete and the sender framed all the same was finished work
+				// sent again
+				again := 0
+				for _, c := range rf.Framed[key] {
+					for _, b := range o.Bits {
+						if c == b {
+							again++
+						}
+					}
+				}
+				if again > 0 && ok {
+					res.AddViolation(map[string]any{"kind": "finished_chunks_sent_again_without_asking_the_receiver", "property": "C04"},
+						map[string]any{"replay": replay, "file": o.Rel, "chunks_of_the_file": o.Total, "framed": rf.Framed[key], "on_disk": o.Bits})
+				}
+				continue
 			}
 			adv := bitsFromBitmap(info.Bitmap, info.TotalChunks)
 			if !sameInts(adv, o.Bits) {
